@@ -91,6 +91,25 @@ def inject(rng, doc, defect):
             return None
         n = rng.choice(hard)
         rs = nu._rects_of(mods[n])
+        if len(rs) >= 2 and rng.random() < 0.5:
+            # a branch pushed 30% of its depth into the trunk (the first rectangle): with three or more rectangles the overlapping pair is
+            # neither adjacent in the list nor in any sorted order
+            rs = [list(x) for x in rs]
+            t = rs[0]
+            k = rng.randrange(1, len(rs))
+            r = rs[k]
+            dx, dy = t[0] - r[0], t[1] - r[1]
+            if abs(dx) >= (t[2] + r[2]) / 2 * (1 - 1e-9):
+                r[0] += (1 if dx > 0 else -1) * 0.3 * r[2]
+            elif abs(dy) >= (t[3] + r[3]) / 2 * (1 - 1e-9):
+                r[1] += (1 if dy > 0 else -1) * 0.3 * r[3]
+            else:
+                return None
+            if rng.random() < 0.5:
+                rs.reverse()
+            mods[n]["rectangles"] = rs
+            mods[n].pop("flip", None)
+            return d
         r = list(rng.choice(rs))
         new = [r[0] + r[2] * rng.choice([0.25, -0.25, 0.5, 0.0]), r[1] + r[3] * rng.choice([0.25, -0.25, 0.0]), r[2], r[3]]
         if new[0] - new[2] / 2 < 0 or new[1] - new[3] / 2 < 0:
